@@ -386,20 +386,24 @@ def run(ctx):
             if got != [ref["AAAA"], ref["BB"]] or after != ref["CCC"]:
                 ctx.fail("a call failed or returned another call's data under this interleaving (or the call made "
                          "after it did)", meta, got + [after], [ref["AAAA"], ref["BB"], ref["CCC"]])
-        # two calls that receive byte-identical replies (same argument): each decodes its own copy
+        # two calls that receive byte-identical replies, never seen before (a fresh argument per schedule): each call
+        # decodes its own copy of the document
+        import json as _json
         for k in points:
+            arg = "Q%03d" % (k % 1000)
+            want = _json.loads(_json.dumps(ref["AAAA"]).replace("AAAA", arg))
             del tr.sent[:]
-            res, nev, errs = run_schedule([call(client, "AAAA"), call(client, "AAAA")], {k: 1})
-            meta = {"style": style, "scenario": "same-reply-bytes", "preempt_after_event": k}
+            res, nev, errs = run_schedule([call(client, arg), call(client, arg)], {k: 1})
+            meta = {"style": style, "scenario": "same-reply-bytes", "preempt_after_event": k, "argument": arg}
             ctx.case(common.canon(meta), True)
             ctx.dist["schedule:" + style + "/same-reply"] += 1
             if errs:
                 ctx.fail("scheduler problem (deadlock between paused threads)", meta, errs, "both calls finish")
                 continue
             got = [r[1] if r and r[0] == "ok" else r for r in res]
-            if got != [ref["AAAA"], ref["AAAA"]]:
+            if got != [want, want]:
                 ctx.fail("a call failed or returned damaged data under this interleaving (identical replies)", meta, got,
-                         [ref["AAAA"], ref["AAAA"]])
+                         [want, want])
         # cold start: a freshly loaded WSDL per interleaving, so the memo cells are filled *during* the race
         cold, ctr = make_client(style)
         run_schedule([call(cold, "AAAA"), call(cold, "BB")], {}, watch=memo_writers())
